@@ -22,7 +22,13 @@ pub fn cv_into(v: &V, out: &mut String) {
             let _ = write!(out, "S{:?}", s);
         },
         Value::Float(f) => {
-            let _ = write!(out, "F{:016x}[{:?}]", f.to_bits(), f);
+            if f.is_nan() {
+                // sign and payload of a NaN are not guaranteed by the float semantics (Miri
+                // randomises them on purpose): all NaNs are one value here
+                out.push_str("F[NaN]");
+            } else {
+                let _ = write!(out, "F{:016x}[{:?}]", f.to_bits(), f);
+            }
         },
         Value::Int(i) => {
             let _ = write!(out, "I{}", i);
